@@ -208,7 +208,7 @@ pub fn run(ctx: &Ctx) {
 
     // one evaluation with many distinct calls, each repeated later: however many results an evaluation holds, every
     // repeat of a cacheable call is served from them and every non-cacheable call is invoked
-    let big: Vec<SetCase> = [129usize, 300, 1000]
+    let big: Vec<SetCase> = [129usize, 300, 1000, 20_000, 70_000]
         .iter()
         .flat_map(|&n| {
             [true, false].into_iter().map(move |cacheable| {
@@ -282,6 +282,24 @@ pub fn run(ctx: &Ctx) {
             check(&big[i as usize])
         },
         |i| big[i as usize].to_json(),
+        "setcase",
+    );
+
+    // one function asked about a field, a symbol of the same name, paths into both and equal literals: one invocation
+    // per distinct argument *value*, however the argument is spelled
+    let spellings = super::c09::argument_spelling_cases();
+    ctx.enumerate(
+        "argument-spellings",
+        spellings.len() as u64,
+        true,
+        |i, acc| {
+            acc.cell("argument-spellings", true);
+            if i == 0 {
+                acc.sample("argument-spellings", || spellings[0].render());
+            }
+            check(&spellings[i as usize])
+        },
+        |i| spellings[i as usize].to_json(),
         "setcase",
     );
 
